@@ -13,7 +13,7 @@ import ast
 
 from ..engine import rule, run_property
 from ..model import Undecided
-from ..cfg import same, dotted, call_name, is_call, simple_name, unparse, const_value, contains, enclosing
+from ..cfg import same, cexpr, dotted, call_name, is_call, simple_name, unparse, const_value, contains, enclosing
 from ..flow import Canon, Defs, depends, scoped_defs
 from ..axis import axis_reports
 from ..util import resolve1, origin_path, keyword, returns_of, calls_in, inside, order_key
@@ -93,7 +93,7 @@ def c04a(ctx):
     stores = [x for x in fb.walk_all() if is_call(x, 'self.cache.store_tiles')]
     ok = bool(stores)
     for s in stores:
-        a = s.args[0]
+        a = cexpr(s.args[0])
         tv = unparse(a.generators[0].target) if isinstance(a, ast.ListComp) and len(a.generators) == 1 else '?'
         ok = ok and isinstance(a, ast.ListComp) and len(a.generators) == 1 and same(a.generators[0].iter, 'tiles') and \
             [unparse(i) for i in a.generators[0].ifs] == [tv + '.cacheable'] and unparse(a.elt) == tv
@@ -102,8 +102,8 @@ def c04a(ctx):
     fbdefs = Defs(fb.node)
     im = [x for x in fb.walk_all() if is_call(x, 'imap')]
     ap = [x for x in fb.walk_all() if isinstance(x, ast.Call) and isinstance(x.func, ast.Attribute) and x.func.attr == 'append' and
-          any(x is y for l in fb.walk_all() if isinstance(l, ast.For) and im and l.iter is im[0] for y in ast.walk(l))]
-    coords = resolve1(im[0].args[1], fbdefs) if im and len(im[0].args) > 1 else None
+          any(x is y for l in fb.walk_all() if isinstance(l, ast.For) and im and is_call(cexpr(l.iter), 'imap') for y in ast.walk(l))]
+    coords = cexpr(im[0].args[1]) if im and len(im[0].args) > 1 else None
     ok = bool(ap) and bool(im) and isinstance(coords, ast.ListComp) and same(coords.generators[0].iter, 'meta_tile.tiles')
     ctx.check(ok, 'TileCreator._create_bulk_meta_tile:all-tiles-queried', 'every tile of the meta tile is queried', fb)
 
